@@ -36,7 +36,7 @@ const (
 var outs = []string{"all fine, E a", "x " + f1 + " detected", "y " + f2 + " value", f2 + " and\n" + f1 + " both", "% " + f4 + " no", f1}
 
 var drvLists = [][]string{nil, {f1}, {f1, f2, f6}, {f5, f4, f1}}
-var opLists = [][]string{nil, {f2}, {f3}}
+var opLists = [][]string{nil, {f2}, {f3}, {}} // the last one: a list given for the operation that holds no string (empty, not nil) leaves the driver's list in force
 var apis = []string{"generic.SendCommand", "generic.SendCommands", "generic.SendCommandsFromFile", "network.SendCommands", "network.SendConfigs", "network.SendConfig", "network.SendConfigsFromFile"}
 
 func contains(out string, l []string) bool {
